@@ -523,6 +523,12 @@ func (x *Exec) zzverifEnv(name string, c *CallCtx) (Value, bool) {
 		return BoolV{B.Or(lt, eq)}, true
 	case "ToLowerIdem":
 		return nil, true
+	case "StrLess":
+		sa, sb := a[0].(StrV), a[1].(StrV)
+		if sa.IsConst && sb.IsConst {
+			return BoolV{B.Bool(sa.S < sb.S)}, true
+		}
+		return BoolV{x.strLess(x.scalarTerm(sa), x.scalarTerm(sb))}, true
 	case "ValidSdkDenom":
 		return BoolV{x.validDenom(a[0].(StrV))}, true
 	case "HasPrefixStr":
